@@ -185,6 +185,45 @@ def from_vector_case(ctx, idx, rng):
     ctx.close('from_vector.result-usable', abs(float(n2) - np.linalg.norm(refs.dense_state(psi.A))), 1e-9 * np.linalg.norm(v0), 'orthonormalize on a from_vector result', detail)
 
 
+def large_case(ctx, idx, rng):
+    """compress beyond the dense reach: error identity and bounds through overlaps."""
+    from .. import large
+    L = int(rng.integers(8, 25))
+    d = int(rng.choice([2, 3, 5]))
+    qd = _qd(rng, d, str(rng.choice(['zero', 'unsorted', 'pairs'])))
+    psi = large.big_state(rng, qd, L, int(rng.choice([6, 10])))
+    # shape the spectra a little so that truncation happens
+    for i in range(1, L):
+        D = psi.A[i].shape[1]
+        psi.A[i] = psi.A[i] * np.exp(-float(rng.uniform(0, 1.5)) * np.arange(D))[None, :, None]
+    mode = ('left', 'right')[idx % 2]
+    tol = float(rng.choice([0.0, 1e-8, 1e-4, 1e-2])) / (1 if rng.random() < 0.5 else L)
+    A_old = [np.array(a, dtype=complex) for a in psi.A]
+    D_old = list(psi.bond_dims)
+    n0 = large.norm_of(A_old)
+    ctx.case(('large-compress', f'L{L // 8 * 8}+', f'd{d}', mode, 'tol0' if tol == 0 else 'tol>0'), sample={'L': L, 'd': d, 'bond_dims': D_old, 'tol': tol, 'mode': mode})
+    detail = {'L': L, 'd': d, 'bond_dims': D_old, 'tol': tol, 'mode': mode}
+    nrm, scale = psi.compress(tol, mode)
+    nrm, scale = float(nrm), float(scale)
+    inv = refs.mps_invariant(psi)
+    if not ctx.ok('large.block-sparse-after', inv is None, str(inv), detail):
+        return
+    ctx.close('large.nrm-equals-norm', abs(nrm - n0), 1e-9 * n0, f'nrm {nrm} != {n0}', detail)
+    ctx.ok('large.scale-in-range', np.sqrt(max(0.0, 1 - L * tol)) - 1e-9 <= scale <= 1 + 1e-9, f'scale {scale}', detail)
+    ctx.close('large.unit-norm', abs(large.norm_of(psi.A) - 1), 1e-9, 'not normalised', detail)
+    worst = 0.0
+    for A in psi.A:
+        M = A.reshape(-1, A.shape[2]) if mode == 'left' else A.transpose(0, 2, 1).reshape(-1, A.shape[1])
+        worst = max(worst, float(np.linalg.norm(M.conj().T @ M - np.identity(M.shape[1]))))
+    ctx.close('large.canonical', worst, 1e-8, f'not {mode}-canonical', detail)
+    ctx.ok('large.bond-dims-do-not-grow', all(x <= y for x, y in zip(psi.bond_dims, D_old)), f'{D_old} -> {psi.bond_dims}', detail)
+    ov = refs.mps_overlap(psi.A, A_old)
+    err2 = n0 ** 2 + (nrm * scale) ** 2 - 2 * nrm * scale * ov.real
+    ctx.close('large.error-identity', abs(err2 - nrm ** 2 * (1 - scale ** 2)) / n0 ** 2, 1e-8, '|nrm scale new - old|^2 != nrm^2 (1 - scale^2)', detail)
+    ctx.close('large.overlap-is-real-positive', abs(ov.imag) / n0, 1e-8, '<new|old> has a phase: the trailing phase was not absorbed', detail)
+    ctx.ok('large.error-bound', err2 <= n0 ** 2 * (L * tol + 1e-8), f'error^2/n0^2 = {err2 / n0 ** 2:.3e} > L tol = {L * tol:.3e}', detail)
+
+
 SPEC = {
     'id': 'C13',
     'rule': ('compress: states {product, random, flat / staircase / decaying Schmidt spectra (bonds of a canonical state rescaled), over-complete '
@@ -196,6 +235,7 @@ SPEC = {
                  'from_vector.error-bound', 'from_vector.tol0-exact'],
     'workloads': [
         Workload('compress', compress_case, quick=1800, thorough=360000),
+        Workload('large', large_case, quick=80, thorough=8000),
         Workload('from-vector', from_vector_case, quick=800, thorough=120000),
     ],
     'shards': {'quick': 1, 'thorough': 16},
